@@ -318,7 +318,7 @@ func checkC08(c *Ctx, r *Report) {
 	checkDMEccOrder(c, r)
 	checkDMFrame(c, r)
 	checkDMSweep(c, r)
-	r.Note("the decoder's de-interleave is decided under C05 / C02 (S-DMDEINT); not decided: the traversal loop of Place / readCodewords beyond its shapes, corner cases and trigger conditions")
+	r.Note("not decided: the traversal loop of Place / readCodewords beyond its shapes, corner cases and trigger conditions")
 }
 
 func checkDMTables(c *Ctx, r *Report) {
@@ -1135,6 +1135,7 @@ func checkDMRegionSwitches(c *Ctx, r *Report) {
 // the encoder's multi-block branch: block b is fed exactly codewords[b], codewords[b+n], ... and its check words
 // land at capacity + b, capacity + b + n, ...
 func checkDMBlockInterleave(c *Ctx, r *Report) {
+	defer checkDMECCWhole(c, r) // the whole-function fold that decides when the matchers below do not recognise the code
 	r.Rule("S-DMBLOCK", "in ErrorCorrection_EncodeECC200's multi-block branch every block's input to createECCBlock is a buffer created empty inside that block's iteration and extended only by append(buf, codewords[d]) for d = block, block+blockCount, ... < data capacity (so its length is that block's own data length, also for the 144x144 symbol whose last two blocks are one shorter), the check word count is the block's own error length, and check word k of a block is stored at dataCapacity + the block's column + k*blockCount (which column: S-DMECCORDER)", 3)
 	fd, p := c.funcDeclOf("datamatrix/encoder", "ErrorCorrection_EncodeECC200")
 	key := "datamatrix/encoder.ErrorCorrection_EncodeECC200"
@@ -1832,6 +1833,7 @@ func refDMPlacement(nrow, ncol int) [][]dmCell {
 }
 
 func checkDMSweep(c *Ctx, r *Report) {
+	r.DecidedBy("S-PLACE", "S-DMSWEEP", "Place and readCodewords folded as a whole for all 30 mapping matrices against Annex F: every shape, trigger and wrap-around the placement uses")
 	r.Rule("S-DMSWEEP", "the Annex F sweep as a whole: DefaultPlacement.Place, folded from source for each of the 30 mapping matrices with setBit / hasBit on a recording model, assigns every module the codeword and bit number that ISO 16022 Annex F.3 (written out independently in the checker) assigns it, including the fixed corner pattern, and uses each codeword of the symbol exactly once; BitMatrixParser.readCodewords, folded on a mapping matrix whose module (row, col) shows the bit of a known codeword value, returns every codeword in order and exactly the symbol's number of them", 60)
 	efd, ep := c.funcDeclOf("datamatrix/encoder", "DefaultPlacement.Place")
 	dfd, dp := c.funcDeclOf("datamatrix/decoder", "BitMatrixParser.readCodewords")
@@ -2113,4 +2115,117 @@ func checkDMECCBlock(c *Ctx, r *Report) {
 		bad = "createECCBlock(…, 6) does not report an error: 6 is not an ECC 200 parity length"
 	}
 	reportFold(r, c, "S-DMECC", key, fd.Pos(), bad)
+}
+
+// dmFoldedTables folds the encoder package's initialiser for log / alog (as S-DMECC does) and returns them as modelled
+// package variables for further folds.
+func dmFoldedTables(c *Ctx) (map[types.Object]*Val, string) {
+	p := c.pkg("datamatrix/encoder")
+	logObj, alogObj := c.lookupObj("datamatrix/encoder", "log"), c.lookupObj("datamatrix/encoder", "alog")
+	if p == nil || logObj == nil || alogObj == nil {
+		return nil, "log / alog not found"
+	}
+	for _, f := range p.Syntax {
+		for _, d := range f.Decls {
+			if x, ok := d.(*ast.FuncDecl); ok && x.Recv == nil && x.Name.Name == "init" && x.Body != nil && usesIdent(p, x.Body, logObj) {
+				h := &rpf{unroll: 100000, maxSteps: 200000, writeBack: true, env: map[types.Object]*Val{logObj: {K: VNil}, alogObj: {K: VNil}}}
+				if _, err := c.rpfCall(x, p, nil, h); err != nil {
+					return nil, err.Error()
+				}
+				return map[types.Object]*Val{logObj: h.env[logObj], alogObj: h.env[alogObj]}, ""
+			}
+		}
+	}
+	return nil, "no initialiser that fills log"
+}
+
+// S-DMECCWHOLE: ErrorCorrection_EncodeECC200 as a whole, for every symbol size
+func checkDMECCWhole(c *Ctx, r *Report) {
+	r.Rule("S-DMECCWHOLE", "ErrorCorrection_EncodeECC200, folded from source for each of the 30 symbol sizes - the rows of the symbols table built by folding its own initialiser, the 144x144 block functions included - on a full vector of data codewords: the result is the data followed by the check words, where block b is fed the codewords b, b+n, b+2n, ... and check word k of the block of the column (capacity + p) mod n stands at capacity + p (the interleaving continues round-robin after the data, also for 144x144), each block's check words being the Reed-Solomon remainder over GF(256)/0x12D of that block's own data", 30)
+	fd, p := c.funcDeclOf("datamatrix/encoder", "ErrorCorrection_EncodeECC200")
+	init, ip := c.varInit("datamatrix/encoder", "symbols")
+	if fd == nil || init == nil {
+		r.AnchorLost("S-DMECCWHOLE", "datamatrix/encoder.ErrorCorrection_EncodeECC200", "function / symbols table not found")
+		return
+	}
+	globals, gerr := dmFoldedTables(c)
+	if gerr != "" {
+		r.Undecided("S-DMECCWHOLE", "datamatrix/encoder.ErrorCorrection_EncodeECC200", c.pos(fd.Pos()), gerr)
+		return
+	}
+	tbl, err := c.rpfExpr(ip, init, map[types.Object]*Val{}, &rpf{callHook: errCtorHook})
+	if err != nil || tbl == nil || tbl.K != VList || len(tbl.L) < 30 {
+		r.Undecided("S-DMECCWHOLE", "datamatrix/encoder.symbols", c.pos(init.Pos()), fmt.Sprintf("the symbols table does not fold to its rows (%v)", err))
+		return
+	}
+	dm := newRefGF(0x12D, 256, 1)
+	for _, row := range tbl.L {
+		if row.K != VStruct || row.Fields["dataCapacity"] == nil || row.Fields["errorCodewords"] == nil {
+			r.Undecided("S-DMECCWHOLE", "datamatrix/encoder.symbols", c.pos(init.Pos()), "a row of the symbols table is not a SymbolInfo value")
+			return
+		}
+		dataCap, ecTotal := int(row.Fields["dataCapacity"].I), int(row.Fields["errorCodewords"].I)
+		key := fmt.Sprintf("datamatrix/encoder.ErrorCorrection_EncodeECC200 whole (%d data, %d check codewords, regions %v x %v)", dataCap, ecTotal, valString(row.Fields["matrixWidth"]), valString(row.Fields["matrixHeight"]))
+		r.Analysed(key)
+		data := make([]int, dataCap)
+		for i := range data {
+			data[i] = (i*37 + i/7 + 11) % 256
+		}
+		// the block structure of ISO 16022 Table 7, from the row's own numbers (checked against the standard by T-DMSYM)
+		n := 1
+		if rs := row.Fields["rsBlockData"]; rs != nil && rs.isInt() && rs.I > 0 {
+			n = dataCap / int(rs.I)
+		} else {
+			n = 10 // 144x144
+		}
+		if n < 1 || ecTotal%n != 0 {
+			reportFold(r, c, "S-DMECCWHOLE", key, fd.Pos(), "?block count not derivable from the row")
+			continue
+		}
+		ecPer := ecTotal / n
+		blocks := make([][]int, n)
+		for i, v := range data {
+			blocks[i%n] = append(blocks[i%n], v)
+		}
+		want := append([]int{}, data...)
+		eccs := make([][]int, n)
+		for b := range blocks {
+			eccs[b] = dm.parity(blocks[b], ecPer)
+		}
+		for q := 0; q < ecTotal; q++ {
+			want = append(want, eccs[(dataCap+q)%n][q/n])
+		}
+		h := &rpf{unroll: 1000000, maxSteps: 60000000, callHook: errCtorHook}
+		res, err := c.rpfCallWithGlobals(fd, p, []*Val{localInts(data), row}, h, globals)
+		bad := ""
+		switch {
+		case err != nil && strings.Contains(err.Error(), "out of range"):
+			bad = err.Error() + " - a run-time panic"
+		case err != nil:
+			bad = "?" + err.Error()
+		case len(res) != 2 || res[1].K != VNil:
+			bad = "a full vector of data codewords is refused"
+		default:
+			got, ok := listInts(res[0])
+			if !ok || len(got) != len(want) {
+				bad = fmt.Sprintf("%d codewords are returned, the symbol has %d", len(got), len(want))
+				break
+			}
+			for i := range want {
+				if int(got[i]) != want[i] {
+					if i < dataCap {
+						bad = fmt.Sprintf("data codeword %d is changed", i)
+					} else {
+						q := i - dataCap
+						bad = fmt.Sprintf("codeword %d (check word %d of the block in column %d of %d) is %d, the standard's interleaved Reed-Solomon gives %d", i, q/n, (dataCap+q)%n, n, got[i], want[i])
+					}
+					break
+				}
+			}
+		}
+		reportFold(r, c, "S-DMECCWHOLE", key, fd.Pos(), bad)
+	}
+	r.DecidedBy("S-DMBLOCK", "S-DMECCWHOLE", "the whole function folded for all 30 sizes against the standard's interleaved Reed-Solomon")
+	checkDMDeinterleave(c, r) // the decoder's side of the agreement (also C05 / C02)
+	r.DecidedBy("S-DMECCORDER", "S-DMECCWHOLE+S-DMDEINT", "encoder and decoder folded whole for all 30 sizes, each against the standard's interleaving: every check word's position")
 }
